@@ -59,7 +59,7 @@ Definition cfg_good (c : checker_cfg) : bool :=
   && forallb bare_builtin_cls (bare_builtins c) && forallb (fun x => existsb (cls_eqb x) (bare_builtins c)) six
   && forallb bare_builtin_cls (conv_bare c) && forallb (fun x => existsb (cls_eqb x) (conv_bare c)) six
   && forallb (fun o => existsb (tname_eqb o) (conv_origins c)) builtin_origins
-  && conv_type_keeps_classes c
+  && conv_type_keeps_classes c && newtype_recurses c && tuple_empty_ok c
   && existsb (derives ValueErrorC) (sig_catches c) && existsb (derives TypeErrorC) (sig_catches c)
   && forallb (fun h => is_pedantic_raise (snd h)) (handlers c) && existsb catches_exception (handlers c)
   && derives (mismatch_raises c) PTypeCheckC
@@ -87,6 +87,8 @@ Record good_facts (c : checker_cfg) : Prop := {
   gf_conv_sup : forall x, In x six -> existsb (cls_eqb x) (conv_bare c) = true;
   gf_conv_origins : forall o, In o builtin_origins -> existsb (tname_eqb o) (conv_origins c) = true;
   gf_conv_type : conv_type_keeps_classes c = true;
+  gf_newtype : newtype_recurses c = true;
+  gf_tuple_empty : tuple_empty_ok c = true;
   gf_sig_value : existsb (derives ValueErrorC) (sig_catches c) = true;
   gf_sig_type : existsb (derives TypeErrorC) (sig_catches c) = true;
   gf_handlers_ped : forall h, In h (handlers c) -> is_pedantic_raise (snd h) = true;
@@ -136,7 +138,7 @@ Section Chk.
     | AAny => true
     | AUnion _ args => existsb (fun m => chk m v) args
     | ALiteral vals => py_in_scalar v vals
-    | ANewType s => match s with ACls c => isinstance v c | _ => false end
+    | ANewType s => match s with ACls c => isinstance v c | _ => chk s v end
     | AFwdRef n | AStr n => match ctx n with Some c => isinstance v c | None => false end
     | AGeneric _ o args =>
         match origin_kind o, args with
@@ -161,6 +163,7 @@ Section Chk.
         | _, _ => false
         end
     | ATupleVar _ e => match v with VTuple vs => forallb (chk e) vs | _ => false end
+    | ATupleEmpty _ => match v with VTuple [] => true | _ => false end
     | ACallable ps r => match callable_check cfg ps r v with Ok b => b | Raise _ => false end
     | _ => false
     end.
